@@ -15,7 +15,7 @@ CHECKS = {
     'C09': dict(
         category='exploration', design_ref='DESIGN.md section 3, C09',
         technique='bounded-exhaustive enumeration of full Cartesian parameter grids for the bundled builders, each point solved by the library and compared period by period with a closed-form recursion over exact rationals (gap oracle)',
-        text='Full Cartesian grids: SIM / SIMEX1 (alpha1 x alpha2 x theta x 4 G-paths x initial wealth x initial expectation), PC (+ lambda0..2, r-path, initial stocks none/book/all-cash), ModelSIMiterative; '
+        text='Full Cartesian grids: SIM / SIMEX1 (alpha1 x alpha2 x theta x 4 G-paths x initial wealth x initial expectation), PC (+ lambda0..2, r-path, initial stocks none/book/all-cash), ModelSIMiterative; the spending and interest-rate paths given as text, as an equation, after the book\'s own path, and as Python list / tuple objects of floats without a short decimal form; '
              'Y, T, YD, C, H/V, bills, money for k = 1..horizon at solver tolerance 1e-12 and at the default tolerance; SIM and SIMEX1 embedded in one Model; the builders\' own book configurations (k=0 stocks exact); '
              'ModelSIMiterative through main() and RunMethod2 incl. the wealth-change series.',
         note='Grid points only (<= 4-decimal parameters); ConvergenceError counts as indeterminate. PC: household-side series. A RunMethod2 give-up within its own 100-sweep cap is a violation only where a reference iteration of the same scheme settles within 60 sweeps.'),
@@ -99,7 +99,7 @@ CHECKS = {
         text='For every spec in the bound and every goods/labour/money/deposit market: DEM = sum of the demanders computed from the spec, SUP = DEM, '
              'supplier assignments sum to SUP, each supplier variable and F inflow equals its assignment (x cross rate), each demander F holds -DEM, '
              'asset demands sum to F, defaulted money demand equals F - all as exact rationals.',
-        note='Trusted: mc/exact.py, mc/topo.py. Bounded: deviation bound 2/3, horizon 3; up to 2 suppliers per goods market, up to 3 assets per portfolio.'),
+        note='Trusted: mc/exact.py, mc/topo.py. Bounded: deviation bound 2/3, horizon 3; up to 2 suppliers per goods market in the grammar, plus units with 3 suppliers (home producer + two foreign producers of the same short code, each with its own quota) on the three-zone economy in every tier; up to 3 assets per portfolio.'),
     'C07': dict(
         category='model_checking', design_ref='DESIGN.md section 3, C07',
         technique='exhaustive enumeration of multi-currency topologies x exchange-rate paths; exact rational solution; term-level and FX-net identities in every (spec, period) state; negative family without ExternalSector',
